@@ -201,7 +201,7 @@ func indexFilter(r R, g *model.GraphData) *gripql.GraphStatement {
 		ids := vids(g, r, 1)
 		return Has(gripql.Eq("_gid", ids[0]))
 	default:
-		return Has(gripql.And(gripql.Eq("_label", pick(r, VLabels)), HasExpr(r, 0, "")))
+		return Has(gripql.And(gripql.Eq("_label", pick(r, VLabels)), HasExpr(r, 0, pick(r, []string{"", "", "_data."}))))
 	}
 }
 
@@ -320,6 +320,10 @@ func step(r R, g *model.GraphData, o ProgOpts, st *pstate) *gripql.GraphStatemen
 			if len(st.order) > 0 && !st.noHistory && r.Chance(25) {
 				pre = "$" + st.order[r.Intn(len(st.order))] + "."
 				st.usedHist = true
+			}
+			if r.Chance(15) {
+				// the explicit spelling of a property path (jsonpath.md: `_data.type`)
+				pre += "_data."
 			}
 			return Has(HasExpr(r, 1, pre))
 		case k < 52:
